@@ -423,6 +423,17 @@ def translate_functions(repo) -> str:
         "",
     ]
 
+    # ---- _lines / _split_lines: the file the model sees is split like the tokenizer does ----
+    ln = _find_method(nv, "BaseNodeVisitor", "_lines", fname)
+    if [ast.unparse(x) for x in ln.body] != ["return _split_lines(self.contents)"]:
+        raise TranslateError("node_visitor.py: _lines is not `return _split_lines(self.contents)`")
+    sl = [n for n in nv.body if isinstance(n, ast.FunctionDef) and n.name == "_split_lines"]
+    sl_body = [ast.unparse(x) for x in sl[0].body if not (isinstance(x, ast.Expr) and isinstance(x.value, ast.Constant))] if len(sl) == 1 else None
+    if sl_body != ["lines = re.split('\\r\\n|\\r|\\n', contents)", "if lines and lines[-1] == '':\n    lines.pop()", "return [line + '\\n' for line in lines]"]:
+        raise TranslateError(f"node_visitor.py: _split_lines changed: {sl_body}")
+    out += ["(* _split_lines: a line ends at \\r\\n, \\r or \\n only *)",
+            "Definition line_terminators : list (list N) := [[13%N; 10%N]; [13%N]; [10%N]].", ""]
+
     # ---- show_errors_for_unused_ignores: shape only -------------------------
     su = _find_method(nv, "BaseNodeVisitor", "show_errors_for_unused_ignores", fname)
     body = [s_ for s_ in su.body if not (isinstance(s_, ast.Expr) and isinstance(s_.value, ast.Constant))]
